@@ -143,3 +143,26 @@ func (n *lnode) BadRuneLookup(word string) bool {
 	}
 	return true
 }
+
+// OWNWORD: keeps the caller's slice as the previous word
+func (b *B) BadAddKeepsWord(w []byte) error {
+	if b.last != nil && bytes.Compare(b.last, w) >= 0 {
+		return errors.New("out of order")
+	}
+	if w == nil {
+		w = []byte{}
+	}
+	b.last = w
+	b.n++
+	return nil
+}
+
+// OWNWORD: keeps a private copy (reusing its own buffer)
+func (b *B) GoodAddCopiesWord(w []byte) error {
+	if b.n > 0 && bytes.Compare(b.last, w) >= 0 {
+		return errors.New("out of order")
+	}
+	b.last = append(b.last[:0], w...)
+	b.n++
+	return nil
+}
